@@ -81,4 +81,145 @@ theorem refs_exact (ws : Workspace) (hwf : ws.WF) (hf : ws.faithful) (kind : Kin
     · exact Or.inl rfl
     · exact Or.inr (by simp only [resolvedOf, List.mem_map]; exact ⟨f, h, rfl⟩)
 
+/-! ### The element under the cursor -/
+
+/-- **target_exact.**  On a document whose tree is faithful to its text, for every cursor
+    position: the symbol `findDefinitionTarget` determines is the span the cursor is on (start and
+    end included) — kind, name and exact lexeme range — and there is none exactly when the cursor
+    is on no occurrence. -/
+theorem target_exact (j : Journal) (spans : List Span) (hf : faithful j spans)
+    (hsep : separated spans) (pos : LPos) :
+    (findDefinitionTarget j pos).map (fun t => (t.kind, t.name, t.range)) =
+      (spanAt spans pos).map (fun s => (s.kind, s.name, s.range)) := by
+  cases ht : findDefinitionTarget j pos with
+  | some t =>
+    obtain ⟨n, hn, hr, rfl⟩ := target_sound j pos t ht
+    have hsane := hf.1 n hn
+    have hmem : n.toSpan ∈ spans := (hf.2 _).mp (List.mem_map.mpr ⟨n, hn, rfl⟩)
+    have hhas : n.toSpan.has pos = true := by rw [← positionInRange_eq_has n hsane pos]; exact hr
+    cases hs : spanAt spans pos with
+    | none =>
+      have := List.find?_eq_none.mp hs _ hmem
+      rw [hhas] at this; exact absurd rfl this
+    | some s =>
+      have hs1 := List.mem_of_find?_eq_some hs
+      have hs2 := List.find?_some hs
+      have := hsep s hs1 _ hmem pos hs2 hhas
+      subst this
+      rfl
+  | none =>
+    cases hs : spanAt spans pos with
+    | none => rfl
+    | some s =>
+      exfalso
+      have hs1 := List.mem_of_find?_eq_some hs
+      have hs2 := List.find?_some hs
+      obtain ⟨n, hn, rfl⟩ := List.mem_map.mp ((hf.2 s).mpr hs1)
+      have hr : positionInRange pos n.range = true := by
+        rw [positionInRange_eq_has n (hf.1 n hn) pos]; exact hs2
+      have := target_complete j pos n hn hr
+      rw [ht] at this; cases this
+
+/-- A request as the handlers see it, made from file `cur` of the workspace. -/
+def requestFrom (ws : Workspace) (cur : FileT) (order : List Path) (pos : LPos) : Request :=
+  ⟨cur.tree, some (resolvedOf ws order), ws.root.path, pos⟩
+
+/-- What the property demands of a request at `pos` in `cur`: nothing when the cursor is on no
+    occurrence, otherwise every occurrence of that symbol in the whole workspace. -/
+def expected (ws : Workspace) (cur : FileT) (pos : LPos) (incl : Bool) : List Loc :=
+  match spanAt cur.spans pos with
+  | none => []
+  | some s => occurrences ws.spanFiles s.kind s.name incl
+
+/-- **references_exact.**  The handler, end to end: from the root or from any included file
+    (`cur` is any file; nothing depends on which), at every cursor position. -/
+theorem references_exact (ws : Workspace) (hwf : ws.WF) (hf : ws.faithful) (cur : FileT)
+    (hcur : cur ∈ ws.files) (hsep : separated cur.spans) (hnames : ∀ s ∈ cur.spans, s.name ≠ [])
+    (order : List Path) (pos : LPos) (incl : Bool) (l : Loc) :
+    l ∈ references (requestFrom ws cur order pos) incl ↔ l ∈ expected ws cur pos incl := by
+  have ht := target_exact cur.tree cur.spans (hf cur hcur) hsep pos
+  simp only [references, requestFrom, expected]
+  cases h1 : findDefinitionTarget cur.tree pos with
+  | none =>
+    cases h2 : spanAt cur.spans pos with
+    | none => simp
+    | some s => rw [h1, h2] at ht; cases ht
+  | some t =>
+    cases h2 : spanAt cur.spans pos with
+    | none => rw [h1, h2] at ht; cases ht
+    | some s =>
+      rw [h1, h2] at ht
+      simp only [Option.map_some, Option.some.injEq, Prod.mk.injEq] at ht
+      obtain ⟨hk, hn, _⟩ := ht
+      have hne : s.name ≠ [] := hnames s (List.mem_of_find?_eq_some h2)
+      simp only [hk, hn]
+      exact refs_exact ws hwf hf s.kind s.name hne incl (some cur.tree) order l
+
+/-- **prepareRename_exact.**  The range offered for renaming is the lexeme under the cursor. -/
+theorem prepareRename_exact (ws : Workspace) (hf : ws.faithful) (cur : FileT) (hcur : cur ∈ ws.files)
+    (hsep : separated cur.spans) (order : List Path) (pos : LPos) :
+    prepareRename (requestFrom ws cur order pos) = (spanAt cur.spans pos).map (·.range) := by
+  have ht := target_exact cur.tree cur.spans (hf cur hcur) hsep pos
+  simp only [prepareRename, requestFrom]
+  cases h1 : findDefinitionTarget cur.tree pos <;> cases h2 : spanAt cur.spans pos <;>
+    rw [h1, h2] at ht <;> simp at ht ⊢
+  exact ht.2.2
+
+/-! ### Rename -/
+
+/-- **rename_substitutes (edits).**  Rename answers with edits exactly at the occurrences of the
+    symbol under the cursor (declarations included), every one carrying the new name, each under
+    the URI of the file that contains the occurrence; there is no answer exactly when there is
+    nothing to rename. -/
+theorem rename_edits_exact (ws : Workspace) (hwf : ws.WF) (hf : ws.faithful) (cur : FileT)
+    (hcur : cur ∈ ws.files) (hsep : separated cur.spans) (hnames : ∀ s ∈ cur.spans, s.name ≠ [])
+    (order : List Path) (pos : LPos) (new : Bytes) :
+    match rename (requestFrom ws cur order pos) new with
+    | none => expected ws cur pos true = []
+    | some ch => ∀ p e, (∃ es, (p, es) ∈ ch ∧ e ∈ es) ↔
+        (⟨p, e.range⟩ ∈ expected ws cur pos true ∧ e.newText = new) := by
+  have href := references_exact ws hwf hf cur hcur hsep hnames order pos true
+  simp only [references, requestFrom] at href
+  simp only [rename, requestFrom]
+  cases h1 : findDefinitionTarget cur.tree pos with
+  | none =>
+    simp only [h1] at href
+    simp only
+    apply List.eq_nil_iff_forall_not_mem.mpr
+    intro l hl
+    exact absurd ((href l).mpr hl) (by simp)
+  | some t =>
+    simp only [h1] at href
+    simp only
+    by_cases hempty : (findReferences t.kind t.name (some (resolvedOf ws order)) ws.root.path
+        (some cur.tree) true).isEmpty = true
+    · simp only [hempty, if_true]
+      apply List.eq_nil_iff_forall_not_mem.mpr
+      intro l hl
+      have := (href l).mpr hl
+      rw [List.isEmpty_iff.mp hempty] at this
+      cases this
+    · simp only [hempty]
+      intro p e
+      rw [mem_changes_foldl]
+      simp only [List.not_mem_nil, false_and, exists_false, false_or]
+      constructor
+      · rintro ⟨l, hl, rfl, rfl⟩
+        exact ⟨(href l).mp hl, rfl⟩
+      · rintro ⟨hl, hnew⟩
+        refine ⟨⟨p, e.range⟩, (href _).mpr hl, rfl, ?_⟩
+        cases e
+        simp only at hnew
+        simp [hnew]
+
+/-- **rename_substitutes (text).**  A client applies the edits of one line from the last to the
+    first.  When the edits are the occurrences' spans — increasing, not overlapping, inside the
+    line — the result is the line with every lexeme replaced by the new name and every gap
+    between them, before the first and after the last, unchanged: no other text changes. -/
+theorem rename_substitutes {α} (line new : List α) (spans : List (Nat × Nat))
+    (h : spansOK line.length 0 spans) :
+    applyEditsBackwards line spans new = substSpans line 0 spans new := by
+  have := applyEdits_eq_subst line new spans 0 h
+  simpa using this
+
 end HL.Props.C09
